@@ -100,6 +100,7 @@ func runC05(c *Ctx) {
 		}
 	}
 	s.checkExitCodeProvenance(c, "exitcode-provenance")
+	s.checkLatchContextsIndependent(c, "latch-contexts-independent")
 	s.checkProberLifecycle(c, "prober-lifecycle")
 }
 
